@@ -22,6 +22,7 @@ import AdaptaVerif.Lemmas.TreeLayoutPerm
 import AdaptaVerif.Lemmas.TreeLayoutRot
 import AdaptaVerif.Lemmas.TreeLayoutDepth
 import AdaptaVerif.Lemmas.TreeLayoutTight
+import AdaptaVerif.Lemmas.TreeLayoutSort
 namespace AdaptaVerif.Props.C19Layout
 open AdaptaVerif.Model.TreeLayout AdaptaVerif.Lemmas.TreeLayout
 
@@ -274,6 +275,23 @@ theorem overlay_second_equation_unused (cfg : Cfg) (id : Nat) (w h : Rat) (c : B
     t.levels.length ≤
       (pre.foldl (place cfg) (initSt cfg id w h (maxDepth (pre ++ t :: post)) c)).rest.length :=
   placeAll_overlay_total cfg id w h c pre post t
+
+/-! ### (6c) the two `std::sort` calls are modelled without loss
+
+The model sorts by insertion; `std::sort` only promises a sorted permutation.  Both comparators are strict
+total orders on what they sort, so any sorted permutation is the model's result. -/
+
+/-- class strings (`isomStrings`): any permutation `out` of them in which no later string is `classLt` an
+    earlier one equals the model's `isort (classLt …)` — for every `rep` (breadth/depth lookup). -/
+theorem class_sort_is_determined (convex : Bool) (rep : String → Nat × Nat) (l out : List String)
+    (hperm : out.Perm l) (hsorted : out.Pairwise (fun a b => classLt convex rep b a = false)) :
+    out = isort (classLt convex rep) l :=
+  class_sort_unique convex rep l out hperm hsorted
+
+/-- tuple strings of a level (`std::sort(N…)` by `isomTupleString`): any sorted permutation is `sortStr` -/
+theorem tuple_sort_is_determined (l out : List String) (hperm : out.Perm l)
+    (hsorted : out.Pairwise (fun a b => ¬ b < a)) : out = sortStr l :=
+  sortStr_unique l out hperm hsorted
 
 /-! ### (7) a quirk of the code as coded (outside the C19 property text; recorded because the model has it)
 
